@@ -36,6 +36,7 @@ func TestFindings(t *testing.T) {
 		{"D12b-stale-preserved-break-flag-br", c11In{Para: P(10, "normal", "justify", tx("ijklm nopqrstu v "), sp(Node{}, tx("wxyz"), Node{K: KBr}, tx("a bcde f ")), tx("g h")), Widths: []int{110}}},
 		{"D10-last-line-justified", c11In{Para: P(10, "normal", "justify", tx("qrst uvwx yzab cdefgh ijklmnopq rstuvwx y ")), Widths: []int{95}}},
 		{"D11-opportunity-between-children-missed", c11In{Para: Para{F: 8, WS: "normal", Align: "left", LH: "1", Nodes: []Node{tx("def gh ij kl"), sp(Node{}, tx("mn "), Node{K: KIB, W: 12, H: 4, M: 1}, tx("o")), tx("p-qr s tu")}}, Widths: []int{144}}},
+		{"D11b-opportunity-after-leading-space-child-missed", c11In{Para: P(10, "normal", "left", tx("ab"), sp(Node{}, tx(" "), sp(Node{}, tx("cd"))), tx("ef")), Widths: []int{60}}},
 		{"D12-stale-preserved-break-flag", c11In{Para: P(16, "pre-line", "justify", tx("hij kl\nm nop   "), sp(Node{}, tx("qrst\nuvw"))), Widths: []int{96}}},
 		{"D15-start-spacing-dropped-after-skipped-space", c11In{Para: P(10, "normal", "left", sp(Node{PL: 10, BL: 5}, tx(" gh ijkl"))), Widths: []int{200}}},
 		{"D5-prewrap-trailing-spaces-force-wrap", c11In{Para: P(20, "pre-wrap", "left", tx("hi j   k  l \n m")), Widths: []int{80}}},
